@@ -4,8 +4,8 @@
 From LV Require Import Base.Bytes Base.Sx Model.Obj Model.DocQ Gen.Crypto
   Model.Crypto.Word Model.Crypto.MD5 Model.Crypto.RC4 Model.Crypto.PKCS5 Model.Crypto.Handler Model.Crypto.Concrete
   Spec.Crypto.Iso Spec.Crypto.IsoConcrete
-  Proofs.CryptoProofs Proofs.CryptoProofsFilter Proofs.CryptoProofsObject Proofs.IsoProofs Proofs.IsoProofsData
-  Proofs.IsoProofsObj Proofs.IsoProofsFilter Proofs.IsoProofsAuth Proofs.IsoProofsDoc.
+  Proofs.CryptoProofs Proofs.CryptoProofsFilter Proofs.CryptoProofsObject Proofs.CryptoProofsDoc Proofs.IsoProofs Proofs.IsoProofsData
+  Proofs.IsoProofsObj Proofs.IsoProofsFilter Proofs.IsoProofsAuth Proofs.IsoProofsDoc Proofs.IsoProofsRT Proofs.IsoProofsDoc2.
 Local Open Scope N_scope.
 
 (* the Gallina MD5 yields 16 bytes: the one fact about MD5 the refinement theorems use *)
@@ -215,4 +215,22 @@ Proof.
       * intros _. repeat constructor; cbn [snd]; discriminate.
     + reflexivity.
   - constructor; try reflexivity; [|apply ex_doc_objs_ok]. intros s Hs. discriminate Hs.
+Qed.
+
+(* ---------- direction lopdf -> standard: the hypotheses are satisfiable (V2 128 bits without owner password; V4 with
+   two crypt filters) ---------- *)
+Lemma ex_version_ok :
+  version_ok (EV2 [] (bs "user") 128 2052) /\
+  version_ok (EV4 false [(KP, CF_Identity); (KS, CF_AESV2)] KS N_Identity (bs "owner") (bs "user") 2052) /\
+  max_id_ok ex_doc /\ dict_get (d_trailer ex_doc) K_Encrypt = None.
+Proof.
+  split; [|split; [|split]].
+  - split; [reflexivity|]. split; [split; cbv; discriminate|reflexivity].
+  - split; [reflexivity|]. split.
+    + constructor; [cbn [map fst In]; intros [H|[]]; discriminate H|]. constructor; [intros []|constructor].
+    + split; [reflexivity|]. split; [right; vm_compute; discriminate|]. split; [left; reflexivity|].
+      repeat constructor; cbn [snd]; discriminate.
+  - intros id Hin. cbn [ex_doc d_objects map fst In d_max_id] in *.
+    destruct Hin as [H|[H|[H|[]]]]; subst id; cbv; discriminate.
+  - reflexivity.
 Qed.
